@@ -789,7 +789,11 @@ impl CheckImpl for C20 {
         let mut results = std::mem::take(&mut *results.lock().unwrap());
         results.sort_by(|a, b| (&a.0, &a.1).cmp(&(&b.0, &b.1)));
         for (sc, be, n, k, r) in results {
-            runs.push(json!({"scenario": sc, "backend": be, "n": n, "seeds": format!("{first}..{}", first + k), "ok": r.0}));
+            let mut run = json!({"scenario": sc, "backend": be, "n": n, "seeds": format!("{first}..{}", first + k), "ok": r.0});
+            if r.0 && !r.1.is_empty() {
+                run["note"] = json!(r.1);
+            }
+            runs.push(run);
             if !r.0 {
                 viols.push(miri_viol(&sc, &be, n, first, first + k, &r.1));
             }
@@ -902,6 +906,7 @@ pub fn miri_main(args: &[String]) -> ! {
             let mut done = Vec::new();
             for k in 0..count {
                 let op = light[((from + k) % light.len() as u64) as usize];
+                println!("MIRI-PAIR-START {k} {op}");
                 let shapes: Vec<crate::c12::ops::Shape> = (0..2u64)
                     .map(|t| {
                         // the same shape on both threads: under Miri's fine-grained preemption they then move through
@@ -1002,7 +1007,40 @@ fn miri_run(scenario: &str, backend_name: &str, n: u32, from: u32, to: u32) -> (
     // an aliasing-model matter outside C20, so borrow tracking is off there; the race detector and the
     // bounds / initialisation checks stay on.
     let extra = if backend_name.ends_with("Avx") { " -Zmiri-disable-stacked-borrows" } else { "" };
-    miri_run_flags(&["miri", scenario, backend_name, &n.to_string()], from, to, "MIRI-ENGINE-B: ok", extra)
+    let parts: Vec<&str> = scenario.split(':').collect();
+    let numeric = parts.len() == 4 && parts[1..].iter().all(|x| x.parse::<u64>().is_ok());
+    if !(backend_name.ends_with("Avx") && parts[0] == "pairs" && numeric) {
+        return miri_run_flags(&["miri", scenario, backend_name, &n.to_string()], from, to, "MIRI-ENGINE-B: ok", extra);
+    }
+    // PAIRS on an AVX backend: what engine B decides there is races (and equality / panics). The AVX kernels
+    // also trip Miri on matters outside C20 - e.g. a pointer bumped past the end of its buffer after the last loop
+    // iteration (fft64/convolution.rs, reim4/arithmetic_avx.rs), never dereferenced. Such a report ends the
+    // process, so the batch resumes behind the op that tripped it and the op is listed in the evidence.
+    let (mut f, mut c, shape_seed): (u64, u64, u64) = (parts[1].parse().unwrap(), parts[2].parse().unwrap(), parts[3].parse().unwrap());
+    let mut notes: Vec<String> = Vec::new();
+    while c > 0 {
+        let sc = format!("pairs:{f}:{c}:{shape_seed}");
+        let r = miri_run_flags(&["miri", &sc, backend_name, &n.to_string()], from, to, "MIRI-ENGINE-B: ok", extra);
+        if r.0 {
+            break;
+        }
+        if r.1.contains("Data race") || r.1.contains("EQ violated") || r.1.contains("panic in pair") {
+            return (false, r.1);
+        }
+        // "MIRI-PAIR-START <k> <op>" of the pair that was running
+        let last = r.1.rmatch_indices("MIRI-PAIR-START ").next().map(|(i, _)| &r.1[i + 16..]);
+        let Some((k, op)) = last.and_then(|l| {
+            let mut it = l.split_whitespace();
+            Some((it.next()?.parse::<u64>().ok()?, it.next()?.to_string()))
+        }) else {
+            return (false, r.1);
+        };
+        let what = r.1.split(" | ").nth(1).unwrap_or("").split(" / ").next().unwrap_or("").to_string();
+        notes.push(format!("{op}: {}", what.chars().take(160).collect::<String>()));
+        f += k + 1;
+        c = c.saturating_sub(k + 1);
+    }
+    (true, if notes.is_empty() { String::new() } else { format!("skipped (Miri report other than a data race, outside C20): {}", notes.join("; ")) })
 }
 
 /// Runs `poulpy-sim <argv>` under Miri for Miri seeds [from, to); success = exit 0 and one `ok_marker` line per seed.
